@@ -10,7 +10,7 @@ _set_K_H / _activate_outbound / _send_message not called on rejection, K = pow(v
 import importlib.util
 import os
 
-from common import coq
+from common import coq, Raw
 
 PID = "C08"
 LEVEL_TEXT = ("Machine-checked proof (Coq, closed under the global context) over range tests and handler bodies "
@@ -270,7 +270,10 @@ def prepare(case, t, engine=None):
         if case["p"] <= 0:
             # a non-positive modulus that passes the size test would make _generate_x loop forever
             k._generate_x = lambda: setattr(k, "x", 3)
-        m.add_mpint(case["p"])
+        if case.get("praw") is not None:
+            m.add_string(bytes.fromhex(case["praw"]))
+        else:
+            m.add_mpint(case["p"])
         m.add_mpint(case["g"])
         ptype, fn = 31, k._parse_kexdh_gex_group
     elif kind in ("gex-init", "gex-reply"):
@@ -311,7 +314,10 @@ def prepare(case, t, engine=None):
         k = engine or KexGSSGex(t)
         if case["p"] <= 0:
             k._generate_x = lambda: setattr(k, "x", 3)
-        m.add_mpint(case["p"])
+        if case.get("praw") is not None:
+            m.add_string(bytes.fromhex(case["praw"]))
+        else:
+            m.add_mpint(case["p"])
         m.add_mpint(case["g"])
         ptype, fn = 41, k._parse_kexgss_group
     elif kind in ("gss-gex-init", "gss-gex-complete"):
@@ -514,26 +520,42 @@ def canon_gss(res):
     return [res["code"] if not res["events"] else 0] + res["events"][:1]
 
 
+def zl(v):
+    """Gallina term for an integer of any size: Coq's numeral parser overflows its stack beyond ~16k bits, so
+    larger values are rendered as 8192-bit limbs combined with Z.shiftl (evaluated by vm_compute)."""
+    if abs(v) < 1 << 8192:
+        return v
+    m = abs(v)
+    limbs = []
+    while m:
+        limbs.append(m & ((1 << 8192) - 1))
+        m >>= 8192
+    t = coq(limbs[-1])
+    for limb in reversed(limbs[:-1]):
+        t = "(%s + Z.shiftl %s 8192)" % (coq(limb), t)
+    return Raw("(Z.opp %s)" % t if v < 0 else t)
+
+
 def model_input(case, res):
     kind = case["kind"]
     if kind == "gss-fixed":
         gi = [n for n, _ in gss_fixed_classes()].index(case["group"])
         return "run_gss", "(Z * Z * Z * Z)", coq((1 if case["role"] == "init" else 0, gi,
-                                                   mpint_value(bytes.fromhex(case["raw"])), 0))
+                                                   zl(mpint_value(bytes.fromhex(case["raw"]))), 0))
     if kind == "gss-gex-group":
-        return "run_gss", "(Z * Z * Z * Z)", coq((2, 0, 0, case["p"]))
+        return "run_gss", "(Z * Z * Z * Z)", coq((2, 0, 0, zl(case["p"])))
     if kind in ("gss-gex-init", "gss-gex-complete"):
         return "run_gss", "(Z * Z * Z * Z)", coq((3 if kind == "gss-gex-init" else 4, 0,
-                                                   mpint_value(bytes.fromhex(case["raw"])), case["p"]))
+                                                   zl(mpint_value(bytes.fromhex(case["raw"]))), zl(case["p"])))
     if kind == "fixed":
         gi = [n for n, _ in fixed_classes()].index(case["group"])
         return "run_fixed", "(Z * Z * Z)", coq((gi, 1 if case["role"] == "init" else 0,
-                                               mpint_value(bytes.fromhex(case["raw"]))))
+                                               zl(mpint_value(bytes.fromhex(case["raw"])))))
     if kind == "gex-group":
-        return "run_gex", "(Z * Z * Z)", coq((0, 0, case["p"]))
+        return "run_gex", "(Z * Z * Z)", coq((0, 0, zl(case["p"])))
     if kind in ("gex-init", "gex-reply"):
         return "run_gex", "(Z * Z * Z)", coq((1 if kind == "gex-init" else 2,
-                                             mpint_value(bytes.fromhex(case["raw"])), case["p"]))
+                                             zl(mpint_value(bytes.fromhex(case["raw"]))), zl(case["p"])))
     if kind == "x25519":
         sec = case.get("secret")
         return "run_x25519", "(Z * Z * bool * list Z)", "(%s, %s, %s, %s)" % (
@@ -555,8 +577,44 @@ def model_input(case, res):
 
 # --------------------------------------------------------------------------- generators
 
-def dh_values(rng, p, n_random):
-    """peer values as mpint payloads: boundaries, negative encodings, random in/out of range."""
+def wire_values(rng, p, everything):
+    """mpint payloads that a decoding helper (Message.get_mpint / util.inflate_long) could treat specially; the
+    value each denotes is computed independently by mpint_value (RFC 4251) and the bytes go through the real
+    Message decoding inside the handler:
+     * very long mpints whose LOW bytes denote an in-range value (v0 + 2^(8k), v0 - 2^(8k), k up to > 2 KiB):
+       anything that truncates, wraps or caps the decoding makes them look in range;
+     * in-range / out-of-range values behind thousands of padding bytes (non-minimal but legal two's complement);
+     * negative values of every length mod 4, short and about as long as p (sign detection / limb padding);
+     * positive values whose length is a multiple of 4, top byte 0x7f / 0x80-with-00-prefix (limb boundaries)."""
+    pb = (p.bit_length() + 7) // 8
+    v0 = rng.randrange(2, p - 1)
+    out = []
+    ks = [pb + 1, pb + 3, pb + 4, 600, 1025, 2049, 2050, 4100]
+    for k in ([2050] + rng.sample([x for x in ks if x != 2050], 2) if not everything else ks):
+        out.append((mpint_raw(v0 + (1 << (8 * k))), "long-high-garbage"))
+    for k in ([rng.choice([pb + 1, 2049, 2050, 3000])] if not everything else [pb + 1, pb + 4, 2049, 2050, 3000]):
+        out.append((mpint_raw(v0 - (1 << (8 * k))), "long-negative-low-in-range"))
+    pads = [rng.choice([2049, 2100, 4096])] if not everything else [1, 3, 4, 2048, 2049, 2100, 4096]
+    for n in pads:
+        out.append((b"\x00" * n + mpint_raw(v0), "long-padding-in-range"))
+        out.append((b"\x00" * n + mpint_raw(rng.choice([p, p + 1, 2 * p])), "long-padding-out-of-range"))
+        out.append((b"\xff" * n + mpint_raw(-v0), "long-padding-negative"))
+    lens = [4, 8, 5, 6, 7]
+    base = pb - (pb % 4)
+    lens += [base, base + 1, base + 2, base + 3, base + 4]
+    for L in (lens if everything else [rng.choice([4, 8]), base, base + 4, rng.choice([5, 6, 7, base + 1, base + 2, base + 3])]):
+        body = bytes(rng.getrandbits(8) for _ in range(L - 1))
+        out.append((bytes([0x80 | rng.getrandbits(7)]) + body, "negative-len%%4=%d" % (L % 4)))
+        if everything or rng.random() < 0.5:
+            out.append((b"\xff" * (L - 1) + bytes([rng.randrange(1, 255)]), "negative-ff-len%%4=%d" % (L % 4)))
+    for L in ([base, base + 4] if not everything else [4, 8, base - 4, base, base + 4]):
+        out.append((b"\x7f" + bytes(rng.getrandbits(8) for _ in range(L - 1)), "limb-aligned-7f"))
+        out.append((b"\x00\x80" + bytes(rng.getrandbits(8) for _ in range(L - 2)), "limb-aligned-0080"))
+    return [(mpint_value(raw), raw, lab) for raw, lab in out]
+
+
+def dh_values(rng, p, n_random, everything=False):
+    """peer values as mpint payloads: boundaries, negative encodings, random in/out of range, wire-level specials."""
     vals = [0, 1, 2, p - 2, p - 1, p, p + 1, 2 * p - 1, 2 * p, -1, -2, -(p - 1), -p, p // 2, (p // 2) + 1,
             1 << (p.bit_length() - 1), (1 << p.bit_length()) - 1, 1 << p.bit_length(), p - 1 + (1 << 64)]
     out = [(v, mpint_raw(v), "boundary") for v in vals]
@@ -577,7 +635,7 @@ def dh_values(rng, p, n_random):
             pad = (b"\x00" if v >= 0 else b"\xff") * rng.randrange(1, 6)
             raw = pad + mpint_raw(v) if v != 0 else pad
             out.append((mpint_value(raw), raw, "padded"))
-    return out
+    return out + wire_values(rng, p, everything)
 
 
 LOW_ORDER_25519 = [
@@ -602,7 +660,7 @@ def gen_cases(ctx):
     # ---- fixed groups, both roles -------------------------------------------------------
     for name, cls in fixed_classes():
         for role in ("init", "reply"):
-            for v, raw, lab in dh_values(rng, cls.P, 40 if T else 6):
+            for v, raw, lab in dh_values(rng, cls.P, 40 if T else 6, T):
                 cases.append({"kind": "fixed", "group": name, "role": role, "raw": raw.hex(),
                               "x": rng.getrandbits(rng.choice([16, 160, 256])) | 2,
                               "via": rng.choice(["parse_next", "direct"]), "label": lab})
@@ -630,6 +688,19 @@ def gen_cases(ctx):
         p = -((1 << (bits - 1)) | rng.getrandbits(bits - 1) | 1)
         cases.append({"kind": "gex-group", "p": p, "g": 2, "cls": rng.randrange(2), "via": "direct",
                       "label": "negative %d-bit" % bits})
+    # moduli as raw mpint payloads the decoder could treat specially (see wire_values)
+    for kind in ("gex-group", "gss-gex-group"):
+        good = (1 << 2047) | rng.getrandbits(2046) << 1 | 1
+        raws = [(mpint_raw(good + (1 << (8 * k))), "long-high-garbage") for k in ([2050, 2049, 4100] if T else [2050])]
+        raws += [(mpint_raw(good - (1 << (8 * rng.choice([2049, 2050, 3000])))), "long-negative-low-in-range"),
+                 (b"\x00" * rng.choice([2049, 2100]) + mpint_raw(good), "long-padding-in-range"),
+                 (b"\x00" * rng.choice([2049, 2100]) + mpint_raw(1 << 8192), "long-padding-out-of-range")]
+        for L in (128, 256, 257, 258, 259):
+            raws.append((bytes([0x80 | rng.getrandbits(7)]) + bytes(rng.getrandbits(8) for _ in range(L - 1)),
+                         "negative-len%%4=%d" % (L % 4)))
+        for raw, lab in raws:
+            cases.append({"kind": kind, "p": mpint_value(raw), "praw": raw.hex(), "g": 2, "cls": rng.randrange(2),
+                          "via": rng.choice(["parse_next", "direct"]), "label": lab})
 
     # ---- group exchange: e / f range tests --------------------------------------------------
     g1 = dict(fixed_classes())
@@ -639,20 +710,20 @@ def gen_cases(ctx):
         pool.append((1 << (bits - 1)) | rng.getrandbits(bits - 1) | 1)
     for p in pool:
         for kind, role in (("gex-init", "init"), ("gex-reply", "reply")):
-            for v, raw, lab in dh_values(rng, p, 30 if T else 5):
+            for v, raw, lab in dh_values(rng, p, 30 if T else 5, T):
                 cases.append({"kind": kind, "role": role, "p": p, "g": 2, "raw": raw.hex(), "cls": rng.randrange(2),
                               "x": rng.getrandbits(160) | 2, "via": rng.choice(["parse_next", "direct"]), "label": lab})
 
     # ---- kex_gss.py engines (stub GSS context) ---------------------------------------------------------
     for name, cls in gss_fixed_classes():
         for role in ("init", "complete"):
-            for v, raw, lab in dh_values(rng, cls.P, 20 if T else 3):
+            for v, raw, lab in dh_values(rng, cls.P, 20 if T else 3, T):
                 cases.append({"kind": "gss-fixed", "group": name, "role": role, "raw": raw.hex(),
                               "x": rng.getrandbits(160) | 2, "tok": rng.random() < 0.5,
                               "via": rng.choice(["parse_next", "direct"]), "label": lab})
     for p in pool[:2]:
         for kind, role in (("gss-gex-init", "init"), ("gss-gex-complete", "complete")):
-            for v, raw, lab in dh_values(rng, p, 20 if T else 3):
+            for v, raw, lab in dh_values(rng, p, 20 if T else 3, T):
                 cases.append({"kind": kind, "role": role, "p": p, "g": 2, "raw": raw.hex(),
                               "x": rng.getrandbits(160) | 2, "tok": rng.random() < 0.5,
                               "via": rng.choice(["parse_next", "direct"]), "label": lab})
@@ -828,7 +899,10 @@ def run(ctx):
     ctx.rule = ("seeded generator (random.Random('C08-<seed>')): for every fixed group engine registered in "
                 "Transport._kex_info (incl. the kex_gss.py engines, with a stub GSS context) and both roles, and for gex init/reply over the group1/group14 primes and random "
                 "1024..2048-bit moduli: peer values 0, 1, 2, p-2, p-1, p, p+1, 2p-1, 2p, negatives, powers of two around "
-                "p, random in-range / above / negative values and non-minimal mpint encodings; gex moduli of 0..16384 bits "
+                "p, random in-range / above / negative values and non-minimal mpint encodings, plus wire-level payloads a decoding "
+                "helper could treat specially (decoded by the real Message.get_mpint inside the handler, denoted value computed "
+                "independently): mpints longer than 2 KiB whose low bytes are in range, thousands of padding bytes, negative "
+                "values of every length mod 4, limb-aligned lengths; gex moduli of 0..16384 bits "
                 "(min, max and a random value per size; every boundary 1023/1024/8192/8193) and negative moduli; X25519 "
                 "low-order points, wrong lengths, random keys, and chosen exchange results incl. 32 zero bytes; NIST points: "
                 "valid, negated, off-curve, out-of-range coordinates, wrong length, infinity, empty, hybrid, compressed "
